@@ -1009,4 +1009,480 @@ theorem unknown_symbol_deposits_nothing (sym : String) (h : vdwrTable.find? (fun
 example : vdwrTable.find? (fun e => e.1 == "Xx") = none ∧ vdwrOf "Zn" = some 0 ∧ vdwrOf "ZN" = some 201 ∧ vdwrOf "OG" = none := by
   decide +kernel
 
+
+/-! ## deepening: additivity, order independence, counts, boundary, covariance -/
+
+/-- `np.add.at` is additive over concatenation of the entry lists: every voxel of `deposit (a ++ b)` is the sum of the
+voxels of `deposit a` and `deposit b` -/
+theorem deposit_append_voxel (shape : List Nat) (a b : List (List Nat × Int))
+    (ha : ∀ pw ∈ a, inShape shape pw.1 = true) (hb : ∀ pw ∈ b, inShape shape pw.1 = true)
+    (v : List Nat) (hv : inShape shape v = true) :
+    (deposit shape (a ++ b)).getD v 0 = (deposit shape a).getD v 0 + (deposit shape b).getD v 0 := by
+  have hab : ∀ pw ∈ a ++ b, inShape shape pw.1 = true := by
+    intro pw h; rcases List.mem_append.mp h with h | h
+    · exact ha pw h
+    · exact hb pw h
+  rw [deposit_voxel _ _ hab v hv, deposit_voxel _ _ ha v hv, deposit_voxel _ _ hb v hv]
+  simp [List.filter_append]
+
+/-- the summed weight of the entries selected by any predicate does not depend on the order of the list -/
+theorem perm_sum_filter {α : Type} (w : α → Int) (q : α → Bool) {a b : List α} (h : a.Perm b) :
+    ((a.filter q).map w).sum = ((b.filter q).map w).sum := by
+  induction h with
+  | nil => rfl
+  | cons x _ ih => by_cases hq : q x = true <;> simp [hq, ih]
+  | swap x y l => by_cases hx : q x = true <;> by_cases hy : q y = true <;> (simp [hx, hy]; try omega)
+  | trans _ _ ih1 ih2 => exact ih1.trans ih2
+
+/-- `np.add.at` does not depend on the order of the entries: any permutation gives the same voxel values -/
+theorem deposit_perm_voxel (shape : List Nat) (a b : List (List Nat × Int)) (h : a.Perm b)
+    (ha : ∀ pw ∈ a, inShape shape pw.1 = true) (v : List Nat) (hv : inShape shape v = true) :
+    (deposit shape a).getD v 0 = (deposit shape b).getD v 0 := by
+  have hb : ∀ pw ∈ b, inShape shape pw.1 = true := fun pw hp => ha pw (h.mem_iff.mpr hp)
+  rw [deposit_voxel _ _ ha v hv, deposit_voxel _ _ hb v hv]
+  exact perm_sum_filter _ _ h
+
+/-- all weights zero ⇒ every voxel of the deposit is zero -/
+theorem deposit_zero_weights (shape : List Nat) (ps : List (List Nat × Int))
+    (hps : ∀ pw ∈ ps, inShape shape pw.1 = true) (hw : ∀ pw ∈ ps, pw.2 = 0)
+    (v : List Nat) (hv : inShape shape v = true) : (deposit shape ps).getD v 0 = 0 := by
+  rw [deposit_voxel _ _ hps v hv]
+  apply List.sum_eq_zero
+  intro x hx
+  obtain ⟨pw, hpw, rfl⟩ := List.mem_map.mp hx
+  exact hw pw (List.mem_of_mem_filter hpw)
+
+/-- a structure whose atoms all weigh nothing (e.g. only unknown element symbols) gives the all-zero grid, whatever
+shape / origin are given or derived -/
+theorem toVolume_zero_weights (nd : Nat) (sub : List Atom) (shape : Option (List Int)) (r : List Rat)
+    (origin : Option (List Rat)) (wt : WType) (hw : ∀ a ∈ sub, weightOf wt a.elem = 0) (v : List Nat)
+    (hv : inShape (toNats (toVolumeCore nd sub shape r origin wt).shape) v = true) :
+    (toVolumeCore nd sub shape r origin wt).grid.getD v 0 = 0 := by
+  rw [toVolume_voxel _ _ _ _ _ _ v hv]
+  apply List.sum_eq_zero
+  intro x hx
+  obtain ⟨a, ha, rfl⟩ := List.mem_map.mp hx
+  exact hw a (List.mem_of_mem_filter ha)
+
+/-- the grid always has the returned shape -/
+theorem toVolume_grid_shape (nd : Nat) (sub : List Atom) (shape : Option (List Int)) (r : List Rat)
+    (origin : Option (List Rat)) (wt : WType) :
+    (toVolumeCore nd sub shape r origin wt).grid.shape = toNats (toVolumeCore nd sub shape r origin wt).shape := by
+  unfold toVolumeCore
+  simp only
+  rw [deposit_shape]
+
+/-- every atom is counted exactly once: reported outside count + number of atoms kept = number of atoms -/
+theorem outside_plus_inside (nd : Nat) (sub : List Atom) (shape : Option (List Int)) (r : List Rat)
+    (origin : Option (List Rat)) (wt : WType) :
+    (toVolumeCore nd sub shape r origin wt).outside + (toVolumeCore nd sub shape r origin wt).kept.length = sub.length := by
+  unfold toVolumeCore
+  simp only
+  have h := List.length_filter_le (fun pw : List Int × Int =>
+    inBox (frame nd (sub.map (fun a => a.xyz.reverse)) shape r origin).shape pw.1)
+    (placed r (frame nd (sub.map (fun a => a.xyz.reverse)) shape r origin) wt sub)
+  have h2 : (placed r (frame nd (sub.map (fun a => a.xyz.reverse)) shape r origin) wt sub).length = sub.length := by
+    simp [placed]
+  omega
+
+/-- origin and shape given: sampling the concatenation of two atom lists gives, voxel by voxel, the sum of the two grids -/
+theorem given_box_append_voxel (nd : Nat) (a b : List Atom) (s : List Int) (r o : List Rat) (wt : WType)
+    (v : List Nat) (hv : inShape (toNats s) v = true) :
+    (toVolumeCore nd (a ++ b) (some s) r (some o) wt).grid.getD v 0 =
+      (toVolumeCore nd a (some s) r (some o) wt).grid.getD v 0 + (toVolumeCore nd b (some s) r (some o) wt).grid.getD v 0 := by
+  have hs : ∀ X, (toVolumeCore nd X (some s) r (some o) wt).shape = s := by
+    intro X; simp [toVolumeCore, frame_given]
+  have hf : ∀ X, frameOf nd X (some s) r (some o) = ⟨o, List.replicate nd 0, s, o⟩ := by
+    intro X; simp [frameOf, frame_given]
+  rw [toVolume_voxel _ _ _ _ _ _ v (by rw [hs]; exact hv), toVolume_voxel _ _ _ _ _ _ v (by rw [hs]; exact hv),
+    toVolume_voxel _ _ _ _ _ _ v (by rw [hs]; exact hv)]
+  simp only [hf, List.filter_append, List.map_append, List.sum_append]
+
+/-- origin and shape given: the grid does not depend on the order of the atoms -/
+theorem given_box_perm_voxel (nd : Nat) (a b : List Atom) (h : a.Perm b) (s : List Int) (r o : List Rat) (wt : WType)
+    (v : List Nat) (hv : inShape (toNats s) v = true) :
+    (toVolumeCore nd a (some s) r (some o) wt).grid.getD v 0 = (toVolumeCore nd b (some s) r (some o) wt).grid.getD v 0 := by
+  have hs : ∀ X, (toVolumeCore nd X (some s) r (some o) wt).shape = s := by
+    intro X; simp [toVolumeCore, frame_given]
+  have hf : ∀ X, frameOf nd X (some s) r (some o) = ⟨o, List.replicate nd 0, s, o⟩ := by
+    intro X; simp [frameOf, frame_given]
+  rw [toVolume_voxel _ _ _ _ _ _ v (by rw [hs]; exact hv), toVolume_voxel _ _ _ _ _ _ v (by rw [hs]; exact hv)]
+  simp only [hf]
+  exact perm_sum_filter _ _ h
+
+/-- origin and shape given: the grid total (in any rank) does not depend on the order of the atoms -/
+theorem given_box_perm_total (nd : Nat) (a b : List Atom) (h : a.Perm b) (s : List Int) (r o : List Rat) (wt : WType) :
+    (toVolumeCore nd a (some s) r (some o) wt).grid.data.toList.sum =
+      (toVolumeCore nd b (some s) r (some o) wt).grid.data.toList.sum := by
+  have hs : ∀ X, (toVolumeCore nd X (some s) r (some o) wt).shape = s := by
+    intro X; simp [toVolumeCore, frame_given]
+  have hf : ∀ X, frameOf nd X (some s) r (some o) = ⟨o, List.replicate nd 0, s, o⟩ := by
+    intro X; simp [frameOf, frame_given]
+  rw [toVolume_total, toVolume_total]
+  simp only [hf, hs]
+  exact perm_sum_filter _ _ h
+
+/-- origin and shape given: the grid total is additive over concatenation of atom lists -/
+theorem given_box_append_total (nd : Nat) (a b : List Atom) (s : List Int) (r o : List Rat) (wt : WType) :
+    (toVolumeCore nd (a ++ b) (some s) r (some o) wt).grid.data.toList.sum =
+      (toVolumeCore nd a (some s) r (some o) wt).grid.data.toList.sum +
+      (toVolumeCore nd b (some s) r (some o) wt).grid.data.toList.sum := by
+  have hs : ∀ X, (toVolumeCore nd X (some s) r (some o) wt).shape = s := by
+    intro X; simp [toVolumeCore, frame_given]
+  have hf : ∀ X, frameOf nd X (some s) r (some o) = ⟨o, List.replicate nd 0, s, o⟩ := by
+    intro X; simp [frameOf, frame_given]
+  rw [toVolume_total, toVolume_total, toVolume_total]
+  simp only [hf, hs, List.filter_append, List.map_append, List.sum_append]
+
+/-- origin and shape given: the outside count is additive over concatenation of atom lists -/
+theorem given_box_outside_append (nd : Nat) (a b : List Atom) (s : List Int) (r o : List Rat) (wt : WType) :
+    (toVolumeCore nd (a ++ b) (some s) r (some o) wt).outside =
+      (toVolumeCore nd a (some s) r (some o) wt).outside + (toVolumeCore nd b (some s) r (some o) wt).outside := by
+  have hs : ∀ X, (toVolumeCore nd X (some s) r (some o) wt).shape = s := by
+    intro X; simp [toVolumeCore, frame_given]
+  have hf : ∀ X, frameOf nd X (some s) r (some o) = ⟨o, List.replicate nd 0, s, o⟩ := by
+    intro X; simp [frameOf, frame_given]
+  rw [outside_count_exact, outside_count_exact, outside_count_exact]
+  simp only [hf, hs, List.filter_append, List.length_append]
+
+/-- origin and shape given: the outside count does not depend on the order of the atoms -/
+theorem given_box_outside_perm (nd : Nat) (a b : List Atom) (h : a.Perm b) (s : List Int) (r o : List Rat) (wt : WType) :
+    (toVolumeCore nd a (some s) r (some o) wt).outside = (toVolumeCore nd b (some s) r (some o) wt).outside := by
+  have hs : ∀ X, (toVolumeCore nd X (some s) r (some o) wt).shape = s := by
+    intro X; simp [toVolumeCore, frame_given]
+  have hf : ∀ X, frameOf nd X (some s) r (some o) = ⟨o, List.replicate nd 0, s, o⟩ := by
+    intro X; simp [frameOf, frame_given]
+  rw [outside_count_exact, outside_count_exact]
+  simp only [hf, hs]
+  exact (h.filter _).length_eq
+
+example : ([⟨[0, 0, 0], "C", "A"⟩, ⟨[1, 1, 1], "O", "A"⟩] : List Atom).Perm [⟨[1, 1, 1], "O", "A"⟩, ⟨[0, 0, 0], "C", "A"⟩] :=
+  List.Perm.swap _ _ _
+
+
+/-- the bounds filter, axis by axis: a position is inside iff it has the rank of the shape and `0 ≤ p_k < shape_k` on
+every axis -/
+theorem inBox_iff : ∀ (s p : List Int), inBox s p = true ↔
+    (s.length = p.length ∧ ∀ k, k < p.length → 0 ≤ p.getD k 0 ∧ p.getD k 0 < s.getD k 0)
+  | [], [] => by simp [inBox]
+  | [], _ :: _ => by simp [inBox]
+  | _ :: _, [] => by simp [inBox]
+  | s :: ss, x :: xs => by
+      rw [inBox_cons, inBox_iff ss xs]
+      constructor
+      · rintro ⟨h0, hl, h⟩
+        refine ⟨by simp [hl], ?_⟩
+        intro k hk
+        cases k with
+        | zero => simpa using h0
+        | succ k => simpa using h k (by simpa using hk)
+      · rintro ⟨hl, h⟩
+        refine ⟨by simpa using h 0 (by simp), by simpa using hl, ?_⟩
+        intro k hk
+        simpa using h (k + 1) (by simpa using hk)
+
+/-- an atom whose index equals the extent on some axis (exactly on the upper boundary) is OUTSIDE … -/
+theorem upper_boundary_outside (s p : List Int) (k : Nat) (hk : k < p.length) (h : p.getD k 0 = s.getD k 0) :
+    inBox s p = false := by
+  cases hb : inBox s p with
+  | false => rfl
+  | true =>
+    have := ((inBox_iff s p).mp hb).2 k hk
+    omega
+
+/-- … and so is one with a negative index on some axis (no wrap-around to the far side of the array) -/
+theorem negative_index_outside (s p : List Int) (k : Nat) (hk : k < p.length) (h : p.getD k 0 < 0) :
+    inBox s p = false := by
+  cases hb : inBox s p with
+  | false => rfl
+  | true =>
+    have := ((inBox_iff s p).mp hb).2 k hk
+    omega
+
+/-- the last voxel of every axis (index = extent − 1) is inside, for every shape with positive extents -/
+theorem last_voxel_inside (s : List Int) (hs : ∀ x ∈ s, 0 < x) : inBox s (s.map (· - 1)) = true := by
+  induction s with
+  | nil => rfl
+  | cons x xs ih =>
+    rw [List.map_cons, inBox_cons]
+    have hx := hs x (by simp)
+    exact ⟨by omega, ih (fun y hy => hs y (by simp [hy]))⟩
+
+example : inBox [2, 3] [1, 2] = true ∧ inBox [2, 3] [2, 0] = false ∧ inBox [2, 3] [0, 3] = false ∧
+    inBox [2, 3] [0, -1] = false := by decide +kernel
+
+/-- translation covariance, one axis: shifting coordinate and origin by the same amount leaves the index unchanged -/
+theorem axisIdx_translate (c o r t : Rat) : axisIdx (c + t) (o + t) r = axisIdx c o r := by
+  unfold axisIdx
+  congr 1
+  ring
+
+/-- translation covariance: shifting all coordinates and the origin by the same vector leaves every voxel index unchanged -/
+theorem idxOf_translate : ∀ (c o r t : List Rat), c.length ≤ t.length →
+    idxOf (List.zipWith (· + ·) o t) r (List.zipWith (· + ·) c t) = idxOf o r c
+  | [], _, _, _, _ => by simp [idxOf, zip3]
+  | _ :: _, _, _, [], h => by simp at h
+  | _ :: _, [], _, _ :: _, _ => by simp [idxOf, zip3]
+  | _ :: _, _ :: _, [], _ :: _, _ => by simp [idxOf, zip3]
+  | c :: cs, o :: os, r :: rs, t :: ts, h => by
+      have ih := idxOf_translate cs os rs ts (by simpa using h)
+      unfold idxOf at ih ⊢
+      simp only [List.zipWith_cons_cons, zip3]
+      rw [ih, axisIdx_translate]
+
+/-- scaling covariance, one axis: multiplying coordinate, origin and sampling rate by the same non-zero factor (a change
+of length unit) leaves the index unchanged -/
+theorem axisIdx_scale (c o r k : Rat) (hk : k ≠ 0) : axisIdx (k * c) (k * o) (k * r) = axisIdx c o r := by
+  unfold axisIdx
+  congr 1
+  rw [← mul_sub, mul_div_mul_left _ _ hk]
+
+/-- scaling covariance: a change of length unit applied to coordinates, origin and sampling rate leaves every voxel
+index unchanged -/
+theorem idxOf_scale (k : Rat) (hk : k ≠ 0) : ∀ (c o r : List Rat),
+    idxOf (o.map (k * ·)) (r.map (k * ·)) (c.map (k * ·)) = idxOf o r c
+  | [], _, _ => by simp [idxOf, zip3]
+  | _ :: _, [], _ => by simp [idxOf, zip3]
+  | _ :: _, _ :: _, [] => by simp [idxOf, zip3]
+  | c :: cs, o :: os, r :: rs => by
+      have ih := idxOf_scale k hk cs os rs
+      unfold idxOf at ih ⊢
+      simp only [List.map_cons, zip3]
+      rw [ih, axisIdx_scale _ _ _ _ hk]
+
+example : idxOf [1/2, 0] [1, 2] [3, 5/2] = [2, 1] ∧ idxOf [1/2 + 7, 0 - 3] [1, 2] [3 + 7, 5/2 - 3] = [2, 1] ∧
+    idxOf [10 * (1/2), 0] [10, 20] [30, 25] = [2, 1] := by decide +kernel
+
+/-- the property as a function: the spec voxel is additive over concatenation of atom lists -/
+theorem specVoxel_append (o r : List Rat) (a b : List (List Rat × Int)) (v : List Int) :
+    specVoxel o r (a ++ b) v = specVoxel o r a v + specVoxel o r b v := by
+  simp [specVoxel, List.filter_append]
+
+/-- … and independent of the order of the atoms -/
+theorem specVoxel_perm (o r : List Rat) (a b : List (List Rat × Int)) (h : a.Perm b) (v : List Int) :
+    specVoxel o r a v = specVoxel o r b v := perm_sum_filter _ _ h
+
+/-- the spec total is independent of the order of the atoms and additive over concatenation -/
+theorem specTotal_perm_append (o r : List Rat) (s : List Int) (a b c : List (List Rat × Int)) (h : a.Perm b) :
+    specTotal o r s a = specTotal o r s b ∧ specTotal o r s (a ++ c) = specTotal o r s a + specTotal o r s c :=
+  ⟨perm_sum_filter _ _ h, by simp [specTotal, List.filter_append]⟩
+
+/-- the spec outside count is additive over concatenation, order independent, and complements the inside count -/
+theorem specOutside_append_perm (o r : List Rat) (s : List Int) (a b c : List (List Rat × Int)) (h : a.Perm b) :
+    specOutside o r s (a ++ c) = specOutside o r s a + specOutside o r s c ∧
+    specOutside o r s a = specOutside o r s b ∧
+    specOutside o r s a + (a.filter (fun x => inBox s (idxOf o r x.1.reverse))).length = a.length := by
+  refine ⟨by simp [specOutside, List.filter_append], (h.filter _).length_eq, ?_⟩
+  unfold specOutside
+  have := length_filter_not a (fun x => inBox s (idxOf o r x.1.reverse))
+  have h2 := List.length_filter_le (fun x : List Rat × Int => inBox s (idxOf o r x.1.reverse)) a
+  omega
+
+/-- the spec total is the sum of the spec voxels' atoms: an atom contributes to the total iff its voxel is inside -/
+theorem specTotal_zero_weights (o r : List Rat) (s : List Int) (a : List (List Rat × Int)) (hw : ∀ x ∈ a, x.2 = 0) :
+    specTotal o r s a = 0 := by
+  unfold specTotal
+  apply List.sum_eq_zero
+  intro x hx
+  obtain ⟨y, hy, rfl⟩ := List.mem_map.mp hx
+  exact hw y (List.mem_of_mem_filter hy)
+
+/-- chain / element restriction as a difference: the grid of the kept atoms is the full grid minus the grid of the
+removed atoms, voxel by voxel (origin and shape given) -/
+theorem restriction_is_full_minus_removed (nd : Nat) (sub : List Atom) (s : List Int) (r o : List Rat) (wt : WType)
+    (p : Atom → Bool) (v : List Nat) (hv : inShape (toNats s) v = true) :
+    (toVolumeCore nd (sub.filter p) (some s) r (some o) wt).grid.getD v 0 =
+      (toVolumeCore nd sub (some s) r (some o) wt).grid.getD v 0 -
+      (toVolumeCore nd (sub.filter (fun a => !p a)) (some s) r (some o) wt).grid.getD v 0 := by
+  have := chain_restriction_diff nd sub s r o wt p v hv
+  omega
+
+/-- `chain=None` restricts nothing; a chain string keeps exactly the atoms whose chain is one of its comma-separated
+parts, so chains not named contribute to no voxel -/
+theorem subsetByChain_mem (c : String) (atoms : List Atom) (a : Atom) :
+    subsetByChain none atoms = atoms ∧
+    (a ∈ subsetByChain (some c) atoms ↔ a ∈ atoms ∧ a.chain ∈ c.splitOn ",") := by
+  refine ⟨rfl, ?_⟩
+  simp [subsetByChain, List.mem_filter]
+
+
+/-- origin and shape given: the stored position of an atom is `rint((zyx − origin)/rate)` -/
+theorem given_box_pos (nd : Nat) (s : List Int) (r o : List Rat) (c : List Rat) (hc : c.length ≤ nd) :
+    posOf r ⟨o, List.replicate nd 0, s, o⟩ c = idxOf o r c := by
+  unfold posOf
+  simp only
+  apply subPos_zeros
+  exact Nat.le_trans (zip3_length_le _ _ _ _) hc
+
+/-- origin and shape given: every voxel of the grid is the property's spec function `specVoxel` (summed weight of the
+atoms with `round((zyx − origin)/rate) = v`) of the atom list -/
+theorem given_box_voxel_is_spec (nd : Nat) (sub : List Atom) (s : List Int) (r o : List Rat) (wt : WType)
+    (hx : ∀ a ∈ sub, a.xyz.length ≤ nd) (v : List Nat) (hv : inShape (toNats s) v = true) :
+    (toVolumeCore nd sub (some s) r (some o) wt).grid.getD v 0 =
+      specVoxel o r (sub.map (fun a => (a.xyz, weightOf wt a.elem))) (v.map Int.ofNat) := by
+  have hs : (toVolumeCore nd sub (some s) r (some o) wt).shape = s := by simp [toVolumeCore, frame_given]
+  have hf : frameOf nd sub (some s) r (some o) = ⟨o, List.replicate nd 0, s, o⟩ := by simp [frameOf, frame_given]
+  rw [toVolume_voxel _ _ _ _ _ _ v (by rw [hs]; exact hv), hf]
+  unfold specVoxel
+  rw [List.filter_map, List.map_map]
+  have : sub.filter (fun a => decide (posOf r ⟨o, List.replicate nd 0, s, o⟩ a.xyz.reverse = v.map Int.ofNat)) =
+      sub.filter ((fun a : List Rat × Int => idxOf o r a.1.reverse == v.map Int.ofNat) ∘
+        (fun a : Atom => (a.xyz, weightOf wt a.elem))) :=
+    List.filter_congr (fun a ha => by
+      simp only [Function.comp, given_box_pos nd s r o a.xyz.reverse (by simpa using hx a ha), beq_eq_decide])
+  rw [this]
+  rfl
+
+/-- origin and shape given: the grid total is the spec function `specTotal`, the reported outside count is `specOutside` -/
+theorem given_box_total_outside_is_spec (nd : Nat) (sub : List Atom) (s : List Int) (r o : List Rat) (wt : WType)
+    (hx : ∀ a ∈ sub, a.xyz.length ≤ nd) :
+    (toVolumeCore nd sub (some s) r (some o) wt).grid.data.toList.sum =
+      specTotal o r s (sub.map (fun a => (a.xyz, weightOf wt a.elem))) ∧
+    (toVolumeCore nd sub (some s) r (some o) wt).outside =
+      specOutside o r s (sub.map (fun a => (a.xyz, weightOf wt a.elem))) := by
+  have hs : (toVolumeCore nd sub (some s) r (some o) wt).shape = s := by simp [toVolumeCore, frame_given]
+  have hf : frameOf nd sub (some s) r (some o) = ⟨o, List.replicate nd 0, s, o⟩ := by simp [frameOf, frame_given]
+  constructor
+  · rw [toVolume_total, hf, hs]
+    unfold specTotal
+    rw [List.filter_map, List.map_map]
+    have : sub.filter (fun a => inBox s (posOf r ⟨o, List.replicate nd 0, s, o⟩ a.xyz.reverse)) =
+        sub.filter ((fun a : List Rat × Int => inBox s (idxOf o r a.1.reverse)) ∘
+          (fun a : Atom => (a.xyz, weightOf wt a.elem))) :=
+      List.filter_congr (fun a ha => by
+        simp [given_box_pos nd s r o a.xyz.reverse (by simpa using hx a ha)])
+    rw [this]
+    rfl
+  · rw [outside_count_exact, hf, hs]
+    unfold specOutside
+    rw [List.filter_map, List.length_map]
+    congr 1
+    exact List.filter_congr (fun a ha => by
+      simp [given_box_pos nd s r o a.xyz.reverse (by simpa using hx a ha)])
+
+/-- translation covariance end to end (origin and shape given): moving every atom and the origin by the same vector `t`
+(z,y,x order) gives the same positions, the same outside count and the same grid -/
+theorem given_box_translate (nd : Nat) (sub : List Atom) (s : List Int) (r o t : List Rat) (wt : WType)
+    (ht : ∀ a ∈ sub, a.xyz.length ≤ t.length) :
+    let sub' := sub.map (fun a => (⟨(List.zipWith (· + ·) a.xyz.reverse t).reverse, a.elem, a.chain⟩ : Atom))
+    let o' := List.zipWith (· + ·) o t
+    (toVolumeCore nd sub' (some s) r (some o') wt).kept = (toVolumeCore nd sub (some s) r (some o) wt).kept ∧
+    (toVolumeCore nd sub' (some s) r (some o') wt).outside = (toVolumeCore nd sub (some s) r (some o) wt).outside ∧
+    (toVolumeCore nd sub' (some s) r (some o') wt).grid = (toVolumeCore nd sub (some s) r (some o) wt).grid := by
+  intro sub' o'
+  have hp : placed r ⟨o', List.replicate nd 0, s, o'⟩ wt sub' = placed r ⟨o, List.replicate nd 0, s, o⟩ wt sub := by
+    unfold placed
+    rw [List.map_map]
+    apply List.map_congr_left
+    intro a ha
+    simp only [Function.comp, posOf, List.reverse_reverse]
+    rw [idxOf_translate _ _ _ _ (by simpa using ht a ha)]
+  have hl : sub'.length = sub.length := by simp [sub']
+  unfold toVolumeCore
+  simp only [frame_given, hp, hl, and_self]
+
+/-- scaling covariance end to end (origin and shape given): a change of length unit (coordinates, origin and sampling
+rate multiplied by the same non-zero factor) gives the same positions, the same outside count and the same grid -/
+theorem given_box_scale (nd : Nat) (sub : List Atom) (s : List Int) (r o : List Rat) (k : Rat) (hk : k ≠ 0) (wt : WType) :
+    let sub' := sub.map (fun a => (⟨a.xyz.map (k * ·), a.elem, a.chain⟩ : Atom))
+    let o' := o.map (k * ·)
+    let r' := r.map (k * ·)
+    (toVolumeCore nd sub' (some s) r' (some o') wt).kept = (toVolumeCore nd sub (some s) r (some o) wt).kept ∧
+    (toVolumeCore nd sub' (some s) r' (some o') wt).outside = (toVolumeCore nd sub (some s) r (some o) wt).outside ∧
+    (toVolumeCore nd sub' (some s) r' (some o') wt).grid = (toVolumeCore nd sub (some s) r (some o) wt).grid := by
+  intro sub' o' r'
+  have hp : placed r' ⟨o', List.replicate nd 0, s, o'⟩ wt sub' = placed r ⟨o, List.replicate nd 0, s, o⟩ wt sub := by
+    unfold placed
+    rw [List.map_map]
+    apply List.map_congr_left
+    intro a ha
+    simp only [Function.comp, posOf, ← List.map_reverse]
+    rw [idxOf_scale k hk]
+  have hl : sub'.length = sub.length := by simp [sub']
+  unfold toVolumeCore
+  simp only [frame_given, hp, hl, and_self]
+
+example :
+    let sub : List Atom := [⟨[0, 0, 0], "C", "A"⟩, ⟨[5, 1, 1], "O", "A"⟩, ⟨[3/2, 1, 0], "N", "A"⟩]
+    let sub' : List Atom := [⟨[7, 0, -2], "C", "A"⟩, ⟨[12, 1, -1], "O", "A"⟩, ⟨[17/2, 1, -2], "N", "A"⟩]
+    (toVolumeCore 3 sub' (some [2, 2, 3]) [1, 1, 1] (some [-2, 0, 7]) .atomicNumber).grid.toList =
+    (toVolumeCore 3 sub (some [2, 2, 3]) [1, 1, 1] (some [0, 0, 0]) .atomicNumber).grid.toList := by decide +kernel
+
+
+/-- `to_volume(chain=c)` is `to_volume` of the chain subset with no chain argument: the restriction acts on the atom list
+and on nothing else (shape / origin derivation, rate, weights all see only the subset) -/
+theorem toVolume_chain_is_subset (nd : Nat) (atoms : List Atom) (shape : Option (List Int)) (rate : Option (List Rat))
+    (origin : Option (List Rat)) (c : String) (wt : WType) :
+    toVolume nd atoms shape rate origin (some c) wt =
+      toVolume nd (subsetByChain (some c) atoms) shape rate origin none wt := rfl
+
+/-- shape derived: all atoms are kept (none dropped), in any rank -/
+theorem derived_all_kept (nd : Nat) (sub : List Atom) (r : List Rat) (origin : Option (List Rat)) (wt : WType)
+    (hx : ∀ a ∈ sub, a.xyz.length = nd) (hrl : r.length = nd) (hol : ∀ o, origin = some o → o.length = nd)
+    (hrp : ∀ k, k < nd → 0 < r.getD k 0) :
+    (toVolumeCore nd sub none r origin wt).kept.length = sub.length := by
+  have h1 := (derived_all_inside nd sub r origin wt hx hrl hol hrp).1
+  have h2 := outside_plus_inside nd sub none r origin wt
+  omega
+
+/-- shape derived: although the derived frame depends on the atoms, the grid total is additive over concatenation and
+independent of the order of the atoms (no mass is lost in either) -/
+theorem derived_total_append_perm (nd : Nat) (a b c : List Atom) (hp : a.Perm c) (r : List Rat)
+    (origin : Option (List Rat)) (wt : WType)
+    (ha : ∀ x ∈ a, x.xyz.length = nd) (hb : ∀ x ∈ b, x.xyz.length = nd) (hrl : r.length = nd)
+    (hol : ∀ o, origin = some o → o.length = nd) (hrp : ∀ k, k < nd → 0 < r.getD k 0) :
+    (toVolumeCore nd (a ++ b) none r origin wt).grid.data.toList.sum =
+      (toVolumeCore nd a none r origin wt).grid.data.toList.sum + (toVolumeCore nd b none r origin wt).grid.data.toList.sum ∧
+    (toVolumeCore nd a none r origin wt).grid.data.toList.sum = (toVolumeCore nd c none r origin wt).grid.data.toList.sum := by
+  have hab : ∀ x ∈ a ++ b, x.xyz.length = nd := by
+    intro x h; rcases List.mem_append.mp h with h | h
+    · exact ha x h
+    · exact hb x h
+  have hc : ∀ x ∈ c, x.xyz.length = nd := fun x hx => ha x (hp.mem_iff.mpr hx)
+  rw [(derived_all_inside nd (a ++ b) r origin wt hab hrl hol hrp).2, (derived_all_inside nd a r origin wt ha hrl hol hrp).2,
+    (derived_all_inside nd b r origin wt hb hrl hol hrp).2, (derived_all_inside nd c r origin wt hc hrl hol hrp).2]
+  refine ⟨by simp, ?_⟩
+  have := perm_sum_filter (fun x : Atom => weightOf wt x.elem) (fun _ => true) hp
+  simpa using this
+
+/-- origin and shape both derived: the returned origin is, axis by axis, the smallest z,y,x coordinate of the subset -/
+theorem derived_origin_is_min (nd : Nat) (sub : List Atom) (r : List Rat) (wt : WType) :
+    (toVolumeCore nd sub none r none wt).origin =
+      (List.range nd).map (fun k => minQ (col 0 k (sub.map (fun a => a.xyz.reverse)))) := by
+  have h := frame_noshift nd (sub.map (fun a => a.xyz.reverse)) none r none rfl
+  have h0 := frame_origin0_none nd (sub.map (fun a => a.xyz.reverse)) r
+  unfold toVolumeCore
+  simp only
+  rw [h.2, h0]
+
+
+/-- chain / element restriction (origin and shape given): the grid total splits into the total of the kept atoms and the
+total of the removed atoms, and so does the outside count -/
+theorem restriction_total_outside_split (nd : Nat) (sub : List Atom) (s : List Int) (r o : List Rat) (wt : WType)
+    (p : Atom → Bool) :
+    (toVolumeCore nd sub (some s) r (some o) wt).grid.data.toList.sum =
+      (toVolumeCore nd (sub.filter p) (some s) r (some o) wt).grid.data.toList.sum +
+      (toVolumeCore nd (sub.filter (fun a => !p a)) (some s) r (some o) wt).grid.data.toList.sum ∧
+    (toVolumeCore nd sub (some s) r (some o) wt).outside =
+      (toVolumeCore nd (sub.filter p) (some s) r (some o) wt).outside +
+      (toVolumeCore nd (sub.filter (fun a => !p a)) (some s) r (some o) wt).outside := by
+  have hs : ∀ X, (toVolumeCore nd X (some s) r (some o) wt).shape = s := by
+    intro X; simp [toVolumeCore, frame_given]
+  have hf : ∀ X, frameOf nd X (some s) r (some o) = ⟨o, List.replicate nd 0, s, o⟩ := by
+    intro X; simp [frameOf, frame_given]
+  have hlen : ∀ (l : List Atom) (q : Atom → Bool), (l.filter q).length =
+      ((l.filter p).filter q).length + ((l.filter (fun a => !p a)).filter q).length := by
+    intro l q
+    induction l with
+    | nil => rfl
+    | cons a t ih =>
+      by_cases hp : p a = true <;> by_cases hq : q a = true <;> simp [hp, hq, ih] <;> omega
+  constructor
+  · rw [toVolume_total, toVolume_total, toVolume_total]
+    simp only [hf, hs]
+    exact sum_filter_split sub p _ _
+  · rw [outside_count_exact, outside_count_exact, outside_count_exact]
+    simp only [hf, hs]
+    exact hlen sub _
+
 end Pm.C10
